@@ -627,12 +627,12 @@ func (a *analysis) analyse(fd *ast.FuncDecl) {
 
 	// per node: guard gains, write flag, operand reads
 	type nodeFx struct {
-		gain  uint32
-		write bool
+		gain   uint32
+		write  bool
 		kernel bool
-		reads uint32
-		pos   token.Pos
-		desc  string
+		reads  uint32
+		pos    token.Pos
+		desc   string
 	}
 	fx := make([][]nodeFx, nb)
 	for _, b := range g.Blocks {
@@ -928,7 +928,7 @@ func (a *analysis) analyse(fd *ast.FuncDecl) {
 				Rule: "OVERLAP.iso",
 				Key:  fmt.Sprintf("OVERLAP.iso|%s|%s", s.name, o.Name()),
 				Pos:  core.Pos(o.Pos()), Func: s.name,
-				Msg:  "the restore function of isolatedWorkspace is never deferred or called: the result computed in the workspace is dropped",
+				Msg: "the restore function of isolatedWorkspace is never deferred or called: the result computed in the workspace is dropped",
 			})
 		}
 	}
